@@ -412,7 +412,10 @@ def run(ctx):
                 'the view of every store re-queried after every operation; (b) interleavings of 6-12 operations (load, '
                 'convert_variable, singularity repair, annotation / equation / unit edits, conversion rules, transpiler handler '
                 'changes, printing) on 2-3 models loaded from the bundled documents, full query snapshot of the other models '
-                'after every operation; non-trivial = at least 6 operations')
+                'after every operation; conversion rules also with shared registries (every model between its own pair of dimensions, '
+                'registered twice in half of the cases: a conversion that worked must keep working); conversion of a variable into '
+                'the unit another model calls by the same name; (c) 2-3 API-built models per process repaired one after another '
+                '(numbers of one model must not belong to another model\'s registry); non-trivial = at least 6 operations')
     ctx.trusted += ['Python-level sharing (class attributes, caches, module state) is outside the functional model: decided by the '
                     'interleaving oracle only']
     cases = load_corpus('stores') + [gen_store_case(ctx.seed * 100000 + i) for i in range(ns)]
